@@ -101,7 +101,7 @@ class MultiPeriodStream(ModelMixin["MultiPeriodStream"], Base):
                         **kwargs) -> dict[str, str]:
         errors: dict[str, str] = {}
         allowed_name_re = re.compile(f'^[{cls.__ALLOWED_NAME_CHARS}]+$')
-        if name is None:
+        if not isinstance(name, str):
             errors['name'] = 'A name must be provided'
         elif len(name) < 3:
             errors['name'] = 'Name must be at least 3 characters'
@@ -115,14 +115,14 @@ class MultiPeriodStream(ModelMixin["MultiPeriodStream"], Base):
             elif pk is not None:
                 try:
                     ipk = int(pk, 10)
-                except ValueError:
+                except (ValueError, TypeError):
                     errors['pk'] = 'Invalid primary key'
             model = cls.get_one(name=name)
             if model is not None:
                 if pk is None or model.pk != ipk:
                     errors['name'] = f'Name "{name}" is already in use'
 
-        if title is None:
+        if not isinstance(title, str):
             errors['title'] = 'A title must be provided'
         elif len(title) < 3:
             errors['title'] = 'Title must be at least 3 characters'
